@@ -52,3 +52,8 @@ def setup():
     import isla.cli  # noqa: F401
     import isla.mutator  # noqa: F401
     sys.setrecursionlimit(20000)
+    # the harness builds trees with small explicit node ids (1..n); ISLa's own id counter starts at 0 in a fresh
+    # process, so nodes it creates next to them (insert_tree, count, repair) could collide with harness ids and trip
+    # its "ids are disjoint" assertions -- an artefact of the harness, not of the code under test
+    from isla.derivation_tree import DerivationTree
+    DerivationTree.next_id = max(DerivationTree.next_id, 10 ** 7)
